@@ -170,6 +170,12 @@ func (d *driver) encode() (raw, url string) {
 	r = result(back, err)
 	r["fn"] = "tlg:tl"
 	bk = append(bk, r)
+	for _, kind := range tlReaderKinds[1:] { // the same bytes through the other deliveries
+		back, err = tlDecodeVia(kind, tb, d.r.Intn(2) == 0)
+		r = result(back, err)
+		r["fn"] = "tl-" + kind + ":tl"
+		bk = append(bk, r)
+	}
 	if wc >= -128 && wc <= 127 {
 		url = id.ToHuman(bounce, testnet)
 		m["human"], m["std"] = url, toStd(url)
@@ -274,18 +280,45 @@ func (d *driver) mutateRaw(s string) string {
 	return w + ":" + h
 }
 
+// tlEvents decodes a TL byte stream (random length, so mostly one id, sometimes a prefix, sometimes two ids
+// back to back) through a random delivery and records what each successive decode returned.
 func (d *driver) tlEvents() {
-	n := []int{0, 1, 3, 4, 5, 31, 35, 36, 36, 36, 37, 44}[d.r.Intn(12)]
+	n := []int{0, 1, 3, 4, 5, 31, 35, 36, 36, 36, 37, 44, 71, 72, 72, 80}[d.r.Intn(16)]
 	b := make([]byte, n)
 	d.r.Read(b)
-	if n >= 4 && d.r.Intn(2) == 0 {
-		w := uint32(int32(d.wc()))
-		b[0], b[1], b[2], b[3] = byte(w), byte(w>>8), byte(w>>16), byte(w>>24)
+	for off := 0; off+4 <= n; off += 36 {
+		if d.r.Intn(2) == 0 {
+			w := uint32(int32(d.wc()))
+			b[off], b[off+1], b[off+2], b[off+3] = byte(w), byte(w>>8), byte(w>>16), byte(w>>24)
+		}
 	}
-	id, err := tlDecode(b)
-	m := result(id, err)
-	m["k"], m["bytes"] = "TlDec", hex.EncodeToString(b)
-	d.emit(m)
+	kinds := append([]string{"split", "split", "split"}, tlReaderKinds...)
+	kind := kinds[d.r.Intn(len(kinds))]
+	var chunks [][]byte
+	cuts := []int{}
+	if kind == "split" { // one to three cuts anywhere
+		rest := b
+		pos := 0
+		for k := 0; k < 1+d.r.Intn(3) && len(rest) > 1; k++ {
+			c := 1 + d.r.Intn(len(rest)-1)
+			chunks = append(chunks, rest[:c])
+			rest = rest[c:]
+			pos += c
+			cuts = append(cuts, pos)
+		}
+		chunks = append(chunks, rest)
+	}
+	generic := d.r.Intn(2) == 0
+	ids, errs := tlDecodeN(tlReader(kind, b, chunks), 2, generic)
+	outs := make([]ev.M, 2)
+	for i := range outs {
+		outs[i] = result(ids[i], errs[i])
+	}
+	fn := "UnmarshalTL"
+	if generic {
+		fn = "tl.Unmarshal"
+	}
+	d.emit(ev.M{"k": "TlDec", "bytes": hex.EncodeToString(b), "rd": kind, "cuts": cuts, "fn": fn, "outs": outs})
 }
 
 func (d *driver) bits(n int) string {
@@ -463,7 +496,7 @@ func (d *driver) adnlEvents() {
 // Drive records calls on random inputs. Every random choice comes from (seed, shard).
 func Drive(w *ev.Writer, o Opts) {
 	d := &driver{w: w, r: rand.New(rand.NewSource(o.Seed*1000003 + int64(o.Shard)*7919 + 17))}
-	rounds := 40
+	rounds := 70
 	if o.Tier == "thorough" {
 		rounds = 3000
 	}
